@@ -799,6 +799,17 @@ def quadrature_cover_rule(chk, repo, fi, clause):
         if c is None:
             return None
         return ('s', int(c)) if c >= 0 else ('e', -int(c))
+    wrapped = []
+    for method in ('simps', 'trapz'):
+        _, pw_, _ = analyse(repo, fi, config={'start': S('start'), 'end': S('end'), 'method': Const(method)})
+        for p in returns(pw_):
+            ra = p.ret.single_atom() if isinstance(p.ret, Poly) else None
+            if ra is not None and is_app(ra, ('max', 'min', 'maximum', 'minimum', 'abs', 'clip', 'absolute', 'fabs')) and \
+                    any(is_app(x, QUAD) for x in nf.value_atoms(p.ret)):
+                wrapped.append(f'[{method}] returns {fmt(p.ret)[:70]}')
+    chk.ob(clause, 'N-formula', fi.key, 'the integral is returned as the quadrature gives it (a negative integral stays negative)', not wrapped,
+           '; '.join(wrapped[:2]) + (': linearity and additivity over adjacent intervals fail for spectra with negative values' if wrapped else ''),
+           fi.loc())
     bad, n = [], 0
     for method in ('simps', 'trapz'):
         _, pi_, _ = analyse(repo, fi, config={'start': S('start'), 'end': S('end'), 'method': Const(method)})
